@@ -5,6 +5,8 @@ use vcore::report::*;
 #[macro_use]
 mod builders;
 mod c0103;
+mod c14;
+mod c15;
 mod c16;
 mod c17;
 mod cs;
@@ -50,6 +52,8 @@ fn main() {
     let summary = match property.as_str() {
         "C01" => c0103::run(&run, false),
         "C03" => c0103::run(&run, true),
+        "C14" => c14::run(&run),
+        "C15" => c15::run(&run),
         "C16" => c16::run(&run),
         "C17" => c17::run(&run),
         _ => {
